@@ -347,6 +347,76 @@ for splice in (True, False):
         except OSError:
             pass
     px.stop(); hop.stop()
+# ---- teardown of tunnels that are blocked on a slow peer: with timeouts.idle = 2 the proxy itself ends 32 tunnels
+#      whose peer has stopped reading (unsent bytes queued); while it does so everything else must keep being served
+for splice in (True, False):
+    pt = {k: free_port() for k in ('http', 'api')}
+    pxt = Proxy({'listeners': [{'name': 'http', 'bind': f"127.0.0.1:{pt['http']}"}], 'connectors': [{'name': 'direct'}], 'rules': [{'target': 'direct'}],
+                 'metrics': {'bind': f"127.0.0.1:{pt['api']}", 'ui': None}, 'timeouts': {'idle': 2}, 'ioParams': {'bufferSize': 65536, 'useSplice': splice}}, 'c14t')
+    pxt.api_port = pt['api']
+    if not pxt.start([pt['http'], pt['api']]):
+        machinery('teardown proxy did not start: ' + pxt.log()[-300:])
+    held = []
+    def blocked(i):
+        s, code, head, rest = http_connect(pt['http'], f'127.0.0.1:{deaf.port}')
+        s.setblocking(False)
+        idle = 0
+        t = time.time()
+        while time.time() - t < 4 and idle < 5:
+            try:
+                s.send(b'\x5a' * 65536)
+                idle = 0
+            except BlockingIOError:
+                idle += 1
+                time.sleep(0.03)
+            except OSError:
+                break
+        return s
+    held = [x for x in run_parallel(list(range(32)), blocked, workers=16) if isinstance(x, socket.socket)]
+    if len(held) < 24:
+        machinery(f'only {len(held)} of 32 blocked tunnels could be set up')
+    t0 = time.time()
+    def api_probe(path):
+        def f():
+            st, data = pxt.api('GET', path, timeout=DEADLINE)
+            return None if st == 200 else f'status {st} {data[:60]!r}'
+        return f
+    def fresh():
+        s, code, head, rest = http_connect(pt['http'], f'127.0.0.1:{echo.port}', timeout=DEADLINE)
+        if code != 200:
+            s.close()
+            return f'CONNECT -> {head[:40]!r}'
+        s.settimeout(DEADLINE)
+        s.sendall(b'ping')
+        ok = recv_exact(s, 4, DEADLINE) == b'ping'
+        s.close()
+        return None if ok else 'no echo'
+    rounds = 0
+    while time.time() - t0 < 7.0:
+        rounds += 1
+        for name, fn in (('api:GET /status', api_probe('/status')), ('api:GET /live', api_probe('/live')), ('fresh:http', fresh)):
+            v, dt = run_probe(fn)
+            evals += 1
+            worst = max(worst, dt)
+            distinct.add(('teardown', name))
+            if v:
+                chk.violation('stall.teardown-of-blocked-tunnels', f'{v.split(":")[0]}:{name}', f'useSplice={splice}: while the proxy was ending {len(held)} idle tunnels whose peer had stopped reading (t+{time.time() - t0:.1f}s), {name}: {v} after {dt:.1f}s', {'probe': name, 'useSplice': splice, 'tunnels': len(held)})
+        time.sleep(0.2)
+    st, body = pxt.api('GET', '/live', timeout=DEADLINE)
+    try:
+        left = len(json.loads(body))
+    except Exception:
+        left = -1
+    samples.append({'teardown': {'useSplice': splice, 'blocked_tunnels': len(held), 'probe_rounds': rounds, 'still_live_after_7s': left}})
+    for s_ in held:
+        try:
+            s_.close()
+        except OSError:
+            pass
+    if not pxt.alive():
+        chk.violation('process', 'proxy-died', f'teardown proxy exit {pxt.returncode()}: {pxt.log()[-300:]}', {})
+    pxt.stop()
+
 for o in (echo, deaf, flood, slow_http, slow_socks, mute):
     o.stop()
 shutil.rmtree(scratch, ignore_errors=True)
@@ -354,6 +424,6 @@ if evals < 500 or len(distinct) < 100:
     machinery(f'vacuous: evals={evals} distinct={len(distinct)}')
 cov = {'evaluations': evals, 'states': nstates, 'distinct_nontrivial': len(distinct), 'transitions': evals, 'traces_validated_against_impl': evals,
        'worst_probe_latency_s': round(worst, 3), 'deadline_s': DEADLINE,
-       'rule': 'stalled states = client stopped after k bytes of the handshake (k = every offset in thorough, a stride + first/last in quick) for http, socks5, socks5+auth, socks4, socks4a, inside the TLS handshake and behind it for https / socks+tls; hanging auth command; request stuck on an upstream proxy that never replies / is mute (http, socks, TLS) entered via http and socks5; tunnel whose origin / client does not read (http, socks5, reverse); x useSplice true/false; each state alone and all together (3 probe rounds). probes = 7 API calls (live, status, history, metrics, rules GET, rules POST, logrotate) then a fresh echo round trip on http, https, socks5, socks5+tls, socks5+auth, socks4, reverse and the QUIC listener (through a second proxy), then live and rules again; every probe must answer within the deadline',
+       'rule': 'stalled states = client stopped after k bytes of the handshake (k = every offset in thorough, a stride + first/last in quick) for http, socks5, socks5+auth, socks4, socks4a, inside the TLS handshake and behind it for https / socks+tls; hanging auth command; request stuck on an upstream proxy that never replies / is mute (http, socks, TLS) entered via http and socks5; tunnel whose origin / client does not read (http, socks5, reverse); x useSplice true/false; each state alone and all together (3 probe rounds); plus the proxy-initiated teardown (timeouts.idle = 2) of 32 tunnels whose peer stopped reading, probed for 7 s. probes = 7 API calls (live, status, history, metrics, rules GET, rules POST, logrotate) then a fresh echo round trip on http, https, socks5, socks5+tls, socks5+auth, socks4, reverse and the QUIC listener (through a second proxy), then live and rules again; every probe must answer within the deadline',
        'schedule_control': 'kernel', 'samples': samples}
 sys.exit(chk.finish('model_checking', cov, ['E4 part: real loopback sockets, kernel scheduling uncontrolled; deadlines are 3 s against millisecond expectations; TPROXY and UDP sessions are not stalled; a QUIC client stalled inside its own handshake is not built (QUIC is probed as a fresh connection only)']))
